@@ -291,6 +291,8 @@ class Run(RunBase):
             i = rng.randrange(self.nsites) if (y < 0.95) else self.nsites + rng.randrange(3)
             by = rng.choice(["index", "item", "pos", "pos"])
             op = {"op": "setocc", "obj": k, "i": i, "c": c, "by": by}
+            if rng.random() < 0.3:
+                op["npint"] = 1
             if by == "pos":
                 op["shift"] = [rng.choice((-1, 0, 0, 1)) for _ in range(3)]
                 op["jit"] = rng.choice((0, 0, rng.randrange(1, 1000)))
@@ -358,19 +360,23 @@ class Run(RunBase):
         sup, m = self.objs[k], self.models[k]
         i, c, by = op["i"], op["c"], op["by"]
         valid_i, valid_c = 0 <= i < self.nsites, -1 <= c < self.nchem
+        # site index and species arrive as Python ints or as numpy integers (what indexing a numpy array yields)
+        ii, cc = (np.int64(i), np.int64(c)) if op.get("npint") else (i, c)
+        if op.get("npint"):
+            self.probes["numpy-integer-arguments"] += 1
         if by == "pos" and valid_i:
             pos = sup.pos[i] + np.array(op.get("shift", [0, 0, 0]), dtype=float)
             if op.get("jit"):
                 pos = pos + random.Random(op["jit"]).uniform(-1e-3, 1e-3) * np.ones(3)
 
             def call():
-                sup[pos] = c
+                sup[pos] = cc
         elif by == "item":
             def call():
-                sup[i] = c
+                sup[ii] = cc
         else:
             def call():
-                sup.setocc(i, c)
+                sup.setocc(ii, cc)
         if self.relatives:
             self.faults["edit-with-live-copy"] += 1
         if valid_i and valid_c:
